@@ -639,6 +639,67 @@ def long_cases(rng, audios, tier):
     return res
 
 
+# pruned lattices (D82): lattice_bestpath after lattice_posterior_prune, judged against an independent maximum over the
+# remaining start->end paths computed by the harness h_c12p from the exit lists
+PRUNE_GRAMMARS = ["#JSGF V1.0; grammar g; public <g> = (go | forward | ten | meters | four | for | two | to | metres)* ;",
+                  "#JSGF V1.0; grammar g; public <g> = (go | forward | ten | meters | tend | meet)+ ;"]
+
+
+def prune_active():
+    """the family runs when the tree contains the D82 repair, or on request (on the pinned tree it shows the defect)"""
+    try:
+        src = (vlib.REPO / "src" / "ps_lattice.c").read_text()
+    except Exception:
+        src = ""
+    return "dag_mark_from(" in src or os.environ.get("VERIF_C12_PRUNE") == "1"
+
+
+def prune_requests(rng, audios, tier):
+    n = 4 if tier == "quick" else 40
+    reqs = []
+    for i in range(n):
+        g = PRUNE_GRAMMARS[i % len(PRUNE_GRAMMARS)]
+        reqs.append(dict(grammar=g, audio=audios["goforward"], beam=-rng.range(20000, 95000)))
+    return reqs
+
+
+def run_prune(reqs):
+    binp = vlib.build_harness("h_c12p")
+    inp = "\n".join(f"{r['grammar'].encode().hex()} {r['audio']} {r['beam']}" for r in reqs) + "\n"
+    rc, out, err = vlib.run_bin(binp, args=[str(vlib.REPO / "model" / "en-us")], stdin_text=inp, leaks=True, timeout=900)
+    lines = [l for l in out.split("\n") if l.startswith("prune ") or l.startswith("setup-failed")]
+    res = []
+    for r, l in zip(reqs, lines):
+        w = l.split()
+        res.append(dict(r, **({k: v for k, v in (t.split("=") for t in w[1:] if "=" in t)} if w[0] == "prune" else {"failed": True})))
+    return rc, res, err
+
+
+def judge_prune(c, rc, res, reqs, err, stats):
+    viols = []
+    if rc != 0 or len(res) != len(reqs):
+        viols.append(dict(kind="sanitizer report, abort or exit in lattice_posterior_prune / lattice_bestpath", rc=rc, stderr=err[-2000:],
+                          case_raw=dict(prune=reqs)))
+        return viols
+    for r in res:
+        stats["prune:requests"] = stats.get("prune:requests", 0) + 1
+        if r.get("failed") or "best" not in r:
+            continue
+        if int(r.get("orphans", 0)) > 0:
+            stats["prune:lattices-with-nodes-that-lost-all-entries"] = stats.get("prune:lattices-with-nodes-that-lost-all-entries", 0) + 1
+        if int(r.get("pruned", 0)) > 0 and r["want"] != "none":
+            stats["prune:partially-pruned-lattices-with-a-remaining-path"] = stats.get("prune:partially-pruned-lattices-with-a-remaining-path", 0) + 1
+        if r["best"] != r["want"]:
+            viols.append(dict(kind="lattice search results violate C12",
+                              what=f"after lattice_posterior_prune(beam={r['beam']}) ({r['pruned']} of {r['links_before']} links pruned, {r['orphans']} nodes without "
+                                   f"entries left) lattice_bestpath returns {r['best']}, the best remaining start->end path has score {r['want']}",
+                              case=dict(grammar=r["grammar"], audio="tests/data/goforward.raw", calls="lattice_bestpath(0.05), lattice_posterior(0.05), "
+                                        f"lattice_posterior_prune({r['beam']}), lattice_bestpath(0.05)"),
+                              case_raw=dict(prune=[dict(grammar=r["grammar"], audio=r["audio"], beam=r["beam"])]),
+                              how_to_rerun="VERIF_C12_PRUNE=1 python3 tools/check.py C12 --replay <this file>"))
+    return viols
+
+
 def describe(case):
     d = m.describe(case)
     if case.get("long_seconds"):
@@ -794,6 +855,16 @@ def check(c):
                              {"case": describe(case), "request": d["tag"], "mismatch": t})
         if len(viols) > 40:
             break
+    if prune_active():
+        reqs = prune_requests(rng, audios, c.tier)
+        prc, pres, perr = run_prune(reqs)
+        pv = judge_prune(c, prc, pres, reqs, perr, stats)
+        for obj in pv[:2]:
+            c.violation(obj, True, finding_key="bestpath-after-posterior-prune")
+        c.oblige("pruned lattices: lattice_bestpath after lattice_posterior_prune returns the best remaining start->end path (harness h_c12p)",
+                 not pv, f"{len(pv)} of {len(reqs)} requests")
+    else:
+        stats["prune:family-not-run(the tree lacks the D82 repair; VERIF_C12_PRUNE=1 runs it)"] = 1
     viols.sort(key=lambda v: (not v[0],))
     seen, nrec = set(), 0
     for (found, obj, case, tag) in viols:
@@ -836,6 +907,12 @@ def replay(c, path):
     audios = m.audio_files(str(c.scratch / "audio"))
     obj = json.loads(open(path).read())
     case = obj["case_raw"]
+    if "prune" in case:
+        prc, pres, perr = run_prune(case["prune"])
+        for o2 in judge_prune(c, prc, pres, case["prune"], perr, {}):
+            c.violation(o2, True, finding_key="bestpath-after-posterior-prune")
+        c.cov.update({"evaluations": len(case["prune"]), "distinct_nontrivial": len(case["prune"])})
+        return
     res, fail = eval_case(c, binp, audios, case, {})
     if fail:
         c.violation({"kind": "sanitizer report, abort or exit inside the lattice code", "case": describe(case), **fail, "case_raw": case}, True)
